@@ -55,6 +55,61 @@ class FlatView(object):
             self._cfg = _cfg.build_py(self.fn_node)
         return self._cfg
 
+    def dealiased(self):
+        """the same function with the plain copies of names that inlining leaves behind (`x = x__h1`, parameter bindings
+        `p = <constant>`) substituted and dropped: a name assigned exactly once from a constant, or from a name that is itself
+        bound at most once (and not by a loop), is replaced by that value"""
+        if getattr(self, "_dealiased", None) is None:
+            from . import pysym
+            f = self.fn_node
+            count, val = {}, {}
+            for n in ast.walk(f):
+                if isinstance(n, ast.Name) and isinstance(n.ctx, (ast.Store, ast.Del)):
+                    count[n.id] = count.get(n.id, 0) + 1
+                elif isinstance(n, ast.ExceptHandler) and n.name:
+                    count[n.name] = count.get(n.name, 0) + 2
+                if isinstance(n, (ast.For, ast.comprehension)):
+                    for x in ast.walk(n.target):
+                        if isinstance(x, ast.Name):
+                            count[x.id] = count.get(x.id, 0) + 1
+                if isinstance(n, (ast.AugAssign,)) and isinstance(n.target, ast.Name):
+                    count[n.target.id] = count.get(n.target.id, 0) + 1
+                if isinstance(n, ast.Assign) and len(n.targets) == 1 and isinstance(n.targets[0], ast.Name):
+                    val[n.targets[0].id] = n.value
+            params = {a.arg for a in f.args.args + f.args.kwonlyargs}
+            env = {}
+            for k, v in val.items():
+                if count.get(k) != 1 or k in params:
+                    continue
+                if isinstance(v, ast.Constant):
+                    env[k] = v
+                elif isinstance(v, ast.Name) and count.get(v.id, 0) <= 1 and v.id != k:
+                    env[k] = v
+            for _ in range(4):
+                for k, v in list(env.items()):
+                    if isinstance(v, ast.Name) and v.id in env:
+                        env[k] = env[v.id]
+            f2 = pysym.subst(f, env)
+
+            class Drop(ast.NodeTransformer):
+                def visit_Assign(self_, node):
+                    if len(node.targets) == 1 and isinstance(node.targets[0], ast.Name) and node.targets[0].id in env:
+                        return ast.copy_location(ast.Pass(), node)
+                    return node
+            f2 = Drop().visit(f2)
+
+            class FoldIfExp(ast.NodeTransformer):
+                def visit_IfExp(self_, node):
+                    self_.generic_visit(node)
+                    if isinstance(node.test, ast.Constant):
+                        return node.body if node.test.value else node.orelse
+                    return node
+            f2 = FoldIfExp().visit(f2)
+            ast.fix_missing_locations(f2)
+            self._dealiased = FlatView(self.module, self.qualname, f2, self.inlined)
+            self._dealiased._dealiased = self._dealiased
+        return self._dealiased
+
     def enclosing(self, node, kinds):
         p = self.parents.get(node)
         while p is not None:
@@ -301,6 +356,11 @@ class _Flattener(object):
                     return [ast.copy_location(ast.Expr(r.value), r)]
                 return []
             val = r.value if r.value is not None else ast.Constant(None)
+            if isinstance(result, ast.Tuple) and isinstance(val, ast.Tuple) and len(result.elts) == len(val.elts) \
+                    and all(isinstance(t_, ast.Name) for t_ in result.elts) \
+                    and not ({t_.id for t_ in result.elts} & {x.id for x in ast.walk(val) if isinstance(x, ast.Name)}):
+                # `a, b = helper()` with `return x, y`: element-wise, so that each name keeps its own definition
+                return [ast.copy_location(ast.Assign([copy.deepcopy(t_)], v_), r) for t_, v_ in zip(result.elts, val.elts)]
             return [ast.copy_location(ast.Assign([copy.deepcopy(result)], val), r)]
         if not rets:
             out += body
